@@ -56,5 +56,27 @@ func checks() map[string]CheckDef {
 		Outside: []string{"by-height windows and common-ancestor (not yet encoded)", "JSON mapping of the responses (headers/model.go, tips/model.go)", "PostgreSQL", "tips: the row order of the UNION is unspecified, the result is compared as a set"},
 		Stubs:   []string{"zerolog calls have no effect", "sqlx over the sqlm model"},
 	})
+	add(CheckDef{
+		ID: "C08", Level: "model_checking",
+		Runs: []HRun{
+			{Pkg: "internal/zzverif/c08", Func: "HarnessPage", Quick: [][]int64{{2}, {3}}, Thorough: [][]int64{{4}, {5}, {6}},
+				Labels: []string{"C08/ok-iff-key-empty-or-longest", "C08/page-length", "C08/ascending-consecutive", "C08/only-longest-chain-rows", "C08/last-key", "C08/unknown-key-404", "C08/non-longest-key-409"}},
+		},
+		Bounds:  []string{"arbitrary INV-H store of k rows with pairwise distinct merkle roots (quick k<=3, thorough k<=6); page size any int >= 0; key any string"},
+		Outside: []string{"the walk over several pages follows from the page lemma by induction on pages (argument, not a solver result)", "parsing of batchSize in the handler (C16)", "PostgreSQL"},
+		Stubs:   []string{"zerolog calls have no effect", "sqlx over the sqlm model"},
+	})
+	add(CheckDef{
+		ID: "C13", Level: "model_checking",
+		Runs: []HRun{
+			{Pkg: "internal/zzverif/c13", Func: "HarnessLocator", Unwind: 100, Labels: []string{"C13/locator-starts-at-tip", "C13/locator-ends-at-genesis", "C13/locator-strictly-descending", "C13/locator-step-pattern", "C13/locator-length-bound", "C13/locator-only-longest-chain-hashes"}},
+			{Pkg: "internal/zzverif/c13", Func: "HarnessRange", Labels: []string{"C13/range-bounds", "C13/range-at-most-2000", "C13/range-nothing-when-stop-not-ahead"}},
+			{Pkg: "internal/zzverif/c13", Func: "HarnessGetHeaders", Quick: [][]int64{{3, 1}, {3, 2}}, Thorough: [][]int64{{4, 2}, {5, 2}, {4, 3}},
+				Labels: []string{"C13/answer-length", "C13/ascending-longest-chain-headers-after-start", "C13/nothing-when-stop-at-or-below-start"}},
+		},
+		Bounds:  []string{"locator algorithm: EVERY tip height 0..2^31-1 over an abstract longest chain (one header per height)", "range arithmetic: every start/stop height", "end to end: arbitrary INV-H store of k rows (quick k<=3, thorough k<=5), locators of 0..3 arbitrary hashes, arbitrary stop hash"},
+		Outside: []string{"the 2000-header cap is decided by the range lemma on abstract heights, not end to end (a store of 2001 rows is outside the row bound)", "wire encoding of the answer (C14)", "PostgreSQL"},
+		Stubs:   []string{"HarnessLocator/HarnessRange replace repository.Headers by an abstract chain whose contract (one longest-chain header per height; start/stop heights) is what HarnessGetHeaders, C01 and C04 decide on symbolic stores"},
+	})
 	return m
 }
